@@ -319,6 +319,7 @@ def table_cases(draw, tier):
     record['perturbations'] = [
         draw(st.lists(st.floats(-1.0, 1.0), min_size=6, max_size=6))
         for _ in range(2)]
+    record['regrid'] = draw(st.sampled_from([None, '0.5', '2.0', '0.25']))
     return record
 
 
@@ -347,6 +348,18 @@ def check_tables(case):
                 done.append(which)
         if not done:
             raise Reject('both main bodies ambiguous')
+        if case.get('regrid'):
+            # a second pass on another grid: refused today (singleton and
+            # primary keys); should the package ever carry it out, the
+            # tables it leaves must again be a least-squares solution
+            for attempt in (lambda: wf.zeta_grid(case['regrid']),
+                            wf.rise, wf.recession):
+                try:
+                    attempt()
+                except Exception:  # pylint: disable=broad-except
+                    labels.add('second-pass-step-refused')
+                else:
+                    labels.add('second-pass-step-accepted')
         connection = wf.connect()
         try:
             for which in done:
